@@ -1,7 +1,7 @@
 (* C13 - Align pads every line to the exact width on the correct side. *)
 From Coq Require Import List Bool ZArith Lia.
 Import ListNotations.
-From Rosed Require Import Base.ListX Gem.Segment Gem.GString Model.Manip Proofs.SeamP Proofs.C13P Inst.Go Inst.GoOk Base.Res Base.Utf8 Base.Str Model.Table Model.Options Model.Editor Model.Ops Proofs.OpsMapP.
+From Rosed Require Import Base.ListX Gem.Segment Gem.GString Model.Manip Proofs.SeamP Proofs.C13P Inst.Go Inst.GoOk Base.Res Base.Utf8 Base.Str Model.Table Model.Options Model.Editor Model.Ops Proofs.OpsMapP Model.Tb Proofs.C11P Proofs.C11Q.
 Open Scope Z_scope.
 
 (* Left: the line minus its leading whitespace clusters, then spaces up to the width
@@ -65,3 +65,16 @@ Theorem C13_align_none : forall (C : Classifier) (U : Upper) align width opts e,
   align <> A_Left -> align <> A_Right -> align <> A_Center -> align_opts align width opts e = Ok e.
 Proof. intros C U. exact align_opts_none. Qed.
 Print Assumptions C13_align_none.
+
+(* Align in paragraph mode, for a paragraph separator that starts and ends with the line
+   separator (no_affix; the case the property's quantifier names): the result is the
+   paragraph-separator join of every piece with each of its lines aligned (align_piece) *)
+Theorem C13_align_paragraphs : forall (C : Classifier) (U : Upper) a width opts e,
+  let o := with_defaults opts in
+  (a = A_Left \/ a = A_Right \/ a = A_Center) ->
+  o_preserve o = true -> no_affix (o_parasep o) (o_linesep o) ->
+  let ps := pieces (e_text e) (o_parasep o) (o_linesep o) in
+  align_opts a width opts e =
+    Ok (with_text e (join (o_parasep o) (map (fun b => encode (align_piece a width (decode (o_linesep o)) (decode b))) ps))).
+Proof. intros C U. exact align_opts_paragraphs. Qed.
+Print Assumptions C13_align_paragraphs.
